@@ -13,6 +13,10 @@ def make_dims(grid, extra, time_letter="t", dtype=int):
     """extra: list of (letter, n_items).  Time first."""
     from flodym import Dimension, DimensionSet
 
+    if any(float(x) != int(x) for x in grid):  # sub-annual grid: float time items
+        dtype = float
+        grid = [float(x) for x in grid]
+
     dl = [Dimension(name="Time", letter=time_letter, items=list(grid), dtype=dtype)]
     for l, n in extra:
         dl.append(Dimension(name=EXTRA_NAMES[l], letter=l, items=[f"{l}{i+1}" for i in range(n)]))
